@@ -316,12 +316,12 @@ main(void)
 					rv = protos[i].open(&socks[s]);
 					if (rv == 0) {
 						char url[32];
-						int  before = vt_neps;
+						vt_last_ep = NULL;
 						snprintf(url, sizeof(url), "telnet://s%d", s);
 						sock_cooked_idgen[s] = protos[i].idgen;
 						rv                   = nng_listen(socks[s], url, NULL, 0);
 						sock_open[s]         = 1;
-						sock_ep[s]           = (rv == 0 && vt_neps > before) ? vt_eps[before] : NULL;
+						sock_ep[s]           = (rv == 0) ? vt_last_ep : NULL;
 					}
 				}
 			}
